@@ -20,9 +20,7 @@ Section Statements.
   Theorem C39_order :
     map fst (graph_walk g t shown skip) = filter (is_shown shown) (rev (seq 0 (length g))) /\
     (forall x y, In x shown -> In y shown -> anc g y x -> y <> x -> y < x).
-  Proof.
-    split; [apply walk_nodes|]. intros x y _ _ Ha N. apply (sanc_lt g _ _ W). now split.
-  Qed.
+  Proof. exact (order_thm g W shown skip). Qed.
 
   (** A direct edge points to a parent that is shown. *)
   Theorem C39_direct_is_parent : forall x a,
@@ -53,7 +51,7 @@ Section Statements.
       stream has order, edge meaning and exact ancestry. *)
   Theorem C39_checker_sound : forall stream,
     stream_ok g t shown stream = true -> stream_holds g shown stream.
-  Proof. intros stream. now apply stream_ok_sound. Qed.
+  Proof. exact (checker_sound_thm g W shown). Qed.
 End Statements.
 
 Check C39_ancestry_implied : forall (g : graph), wf g -> forall (shown : list nat) (skip : bool)
